@@ -486,6 +486,24 @@ def _agg_intervals(aggname, keys):
             return h.fail("no_raise", f"raised {res}", replay=lambda ev: {"target": "verif_replays:gaussian_aggregate_replay", "args": [list(keys)], "check": "result['exc'] is None and result['ok']"})
         L = len(keys)
         rp = lambda ev: {"target": "verif_replays:gaussian_aggregate_replay", "args": [list(keys)], "check": "result['exc'] is None and result['ok']"}  # noqa: E731
+        if not gmc.calls:
+            # returned without fitting a model: only legitimate when nothing is outstanding, and then both bounds are the
+            # counted votes of the group (reporting and attributable third-frame units)
+            sR, dR = t.gsum("R", keys, t.res)
+            sT, dT = t.gsum("T", keys, t.res)
+            counted = sR if "county_classification" in keys else sR + sT
+            lo0, up0 = (res.lower, res.upper) if hasattr(res, "lower") else res
+            h.ensures("no_outstanding_units.only_then", t.nonrep.axis.n == 0, replay=rp)
+            ok_shape = isinstance(lo0, V) and isinstance(up0, V) and len(lo0.axes) == 1 and len(up0.axes) == 1
+            h.ensures("no_outstanding_units.bounds_are_series_over_the_groups", ok_shape, replay=rp)
+            if not ok_shape:
+                return
+            wantR = t.member("R", keys)
+            wantT = z3.BoolVal(False) if "county_classification" in keys else t.member("T", keys)
+            h.ensures("no_outstanding_units.every_group_with_counted_votes_has_a_row", z3.Implies(z3.And(*t.root.facts(), z3.Or(wantR, wantT)), z3.And(lo0.axes[0].present(), up0.axes[0].present())), replay=rp)
+            rows = z3.And(*lo0.axes[0].facts())
+            h.ensures("no_outstanding_units.bounds_are_the_counted_votes", z3.Implies(rows, z3.And(real(lo0.t) == z3.ToReal(counted), real(up0.t) == z3.ToReal(counted))), replay=rp)
+            return
         spec = gmc.calls[0]["spec"]
         h.ensures("one_fit_on_the_calibration_rows_at_this_aggregate", len(gmc.calls) == 1 and gmc.calls[0]["conf"] is cal and gmc.calls[0]["non"] is t.nonrep and gmc.calls[0]["aggregate"] == list(keys) and gmc.calls[0]["alpha"] is alpha)
         gs = spec.gs[L]
